@@ -52,6 +52,8 @@ type genState struct {
 	headSt         *state.StateDB
 	headNum        uint64
 	altCB          int
+	evmFocus       bool // see genTx
+	evmFocusDrawn  bool
 	evidenceFor    uint64         // round for which a genuine double-sign evidence was last posted to the main builder
 	evidenceTarget common.Address // the validator that evidence is against
 	riskyPending   int            // risky actions submitted in the running period (see sim.risky)
@@ -279,6 +281,13 @@ func (s *sim) genContractCall() {
 	switch ct.kind {
 	case 0:
 		v, k := byte(s.c.Intn("store-value", 3)*3), byte(s.c.Intn("store-key", 3))
+		if s.g.evmFocus {
+			// one slot, two values: set / clear / set again
+			k = 0
+			if v == 6 {
+				v = 3
+			}
+		}
 		refund = v == 0
 		data = append(word([]byte{v}), word([]byte{k})...)
 		desc = fmt.Sprintf("sstore(%d)=%d", k, v)
@@ -693,6 +702,20 @@ func (s *sim) genTx(bias int) {
 	w := []int{6, 2, 4, 2, 3, 4, 4, 3, 1, 6, 4, 1, 2}
 	if bias == 1 { // C07: value movement through staking
 		w = []int{3, 1, 3, 2, 3, 6, 6, 3, 2, 8, 6, 2, 1}
+	}
+	if !s.g.evmFocusDrawn {
+		// swarm: a quarter of the C06 runs concentrate on contract storage (one slot of a few
+		// store contracts is set, cleared and set again in consecutive blocks, also inside a fork
+		// and the side chain that replaces it)
+		s.g.evmFocusDrawn = true
+		s.g.evmFocus = bias == 0 && s.c.Chance("evm-focus", 1, 3)
+		if s.g.evmFocus {
+			s.r.Probe("evm-focus-run")
+		}
+	}
+	if s.g.evmFocus {
+		w[1] *= 2
+		w[2] *= 8
 	}
 	switch s.c.Weighted("action", w) {
 	case 0:
